@@ -43,6 +43,13 @@ GbcCount(rs, bin, strict, cell) ==
     Cardinality({ k \in DOMAIN rs : /\ rs[k].r1 /\ ~rs[k].qcfail /\ ~rs[k].dup
                                       /\ (strict => rs[k].mp \in {"", "unique"})
                                       /\ GbcCell(rs[k], bin) = cell })
+(* a read 2 flagged "proper pair" whose read 1 is not on the same contig of the same BAM (legal SAM, not produced by
+   aligners): mate_iter hands it out alone in the R1 slot and get_binned_counts counts it as a read 1 - reported as an
+   observation, not judged *)
+LoneProperRead2(b) ==
+    \E k \in DOMAIN b.recs : /\ ~b.recs[k].r1 /\ b.recs[k].proper
+                             /\ ~\E j \in DOMAIN b.recs : /\ b.recs[j].r1 /\ b.recs[j].name = b.recs[k].name
+                                                          /\ b.recs[j].contig = b.recs[k].contig /\ b.recs[j].file = b.recs[k].file
 GbcVerdict(e, b) ==
     LET got == GotMatrix(e)
         cells == DOMAIN got \cup { GbcCell(b.recs[k], e.bin) : k \in DOMAIN b.recs }
@@ -61,7 +68,10 @@ TNext == /\ l <= Len(Log)
                 (IF RunPre(e, Log[cur]) # "ok" THEN Note(l, e.tid, RunPre(e, Log[cur]))
                  ELSE Judge(l, RunVerdict(e, Log[cur], IF ref > 0 THEN Log[ref] ELSE e)))
             ELSE IF e.ev = "gbc" THEN
-                (IF e.regions = "none" THEN Judge(l, GbcVerdict(e, Log[cur]))
+                (IF e.regions = "none" /\ LoneProperRead2(Log[cur])
+                 THEN Note(l, e.tid, IF GbcVerdict(e, Log[cur]) = "ok" THEN "ext_lone_proper_read2_ok"
+                                     ELSE "ext_lone_proper_read2_counted_as_read1_" \o GbcVerdict(e, Log[cur]))
+                 ELSE IF e.regions = "none" THEN Judge(l, GbcVerdict(e, Log[cur]))
                  \* user supplied adjacent regions are outside the quantifier of C12 (candidate D15): observation only
                  ELSE Note(l, e.tid, IF GbcVerdict(e, Log[cur]) = "ok" THEN "ext_user_regions_ok"
                                      ELSE "ext_D15_user_regions_" \o GbcVerdict(e, Log[cur])))
